@@ -187,8 +187,25 @@ IMPLS = ['SourceFile', 'StatementList', 'Statement', 'Include', 'Assert', 'Class
          'ForeachIteratorInit', 'If', 'Let', 'LetList', 'LetItem', 'MultiClass', 'TemplateArgList', 'TemplateArgDecl', 'RecordBody', 'ParentClassList',
          'ArgValueList', 'ArgValue', 'Body', 'BodyItem', 'FieldDef', 'FieldLet', 'Value', 'InnerValue', 'SimpleValue', 'Type', 'Integer']
 # bodies that use iterator adapters / closures capturing ctx: not verified, frame contract ASSUMED
-EXTERNAL = {'ArgValueList', 'SimpleValue', 'Value'}   # Value: Iterator::count has no Verus spec
-NLOOPS = {'StatementList': 1, 'LetList': 1, 'TemplateArgList': 1, 'ParentClassList': 3, 'Body': 1, 'Value': 1, 'InnerValue': 1}
+EXTERNAL = {'ArgValueList'}   # closure capturing ctx inside a map() whose items are needed individually
+FRAME_ENS = ['cwf(final(ctx))', 'restored(final(ctx), old(ctx))', 'old(ctx).indexed_files@.subset_of(final(ctx).indexed_files@)']
+OUTLINES = {
+  # Iterator::count cannot be given a Verus specification: counted in a helper
+  'Value': [dict(rx=r'self\.inner_values\(\)\.count\(\)', name='o_inner_value_count', sig='(this: &ast::Value) -> usize', call='o_inner_value_count(self)', subst=[('self', 'this')],
+                 why='Iterator::count')],
+  'SimpleValue': [
+      dict(rx=r'bits\.value_list\(\)\?\.values\(\)\.count\(\)', name='o_bits_len', sig='(vl: ast::ValueList) -> usize', call='o_bits_len(bits.value_list()?)', subst=[('bits.value_list()?', 'vl')],
+           why='Iterator::count'),
+      dict(move=True, rx=r'let mut value_types = list.*?\.or\(Some\(Type::List\(Box::new\(Type::Any\)\)\)\)', name='o_list_type',
+           sig='(list: &ast::List, ctx: &mut IndexCtx) -> (r: Option<Type>)', call='o_list_type(list, ctx)', requires=['cwf(old(ctx))'], ensures=FRAME_ENS,
+           why='lazy filter_map over a closure that captures ctx (&mut); ASSUMED frame contract: the element values are indexed through Value::index, which restores both stacks'),
+      dict(rx=r'arg_list\.args\(\)\.filter_map\(\|it\| it\.value\(\)\)', name='o_dag_arg_values', sig='(arg_list: &ast::DagArgList) -> std::vec::IntoIter<ast::Value>', call='o_dag_arg_values(&arg_list)',
+           wrap=('', '.collect::<Vec<_>>().into_iter()'), why='filter_map adapter: collected into a Vec to be walked with a specified iterator'),
+      dict(move=True, rx=r'class\s*\.iter_template_arg\(\)\s*\.map\(\|id\| ctx\.symbol_map\.template_arg\(id\)\)\s*\.cloned\(\)\s*\.collect\(\)', name='o_class_template_args',
+           sig='(class: &Record, ctx: &IndexCtx) -> Vec<TemplateArgument>', call='o_class_template_args(class, &*ctx)', why='iterator adapters map/cloned/collect over the symbol map'),
+  ],
+}
+NLOOPS = {'StatementList': 1, 'LetList': 1, 'TemplateArgList': 1, 'ParentClassList': 3, 'Body': 1, 'Value': 1, 'InnerValue': 1, 'SimpleValue': 3}
 RENAME = {'Statement': {'assert': 'assert_', 'r#if': 'if_', 'r#let': 'let_'}, 'BodyItem': {'assert': 'assert_'}}
 for name in IMPLS:
     imp = '<ast::%s as Indexable>' % name
@@ -197,8 +214,16 @@ for name in IMPLS:
     loops = {}
     for i in range(NLOOPS.get(name, 0)):
         loops[i] = dict(invariant=LOOPINV + ([pre] if pre != 'true' else []))
-    U.fn(I, imp + '::index', attrs=(['external_body'] if name in EXTERNAL else ['exec_allows_no_decreases_clause']), loops=loops, rename=RENAME.get(name, {}))
+    U.fn(I, imp + '::index', attrs=(['external_body'] if name in EXTERNAL else ['exec_allows_no_decreases_clause']), loops=loops, rename=RENAME.get(name, {}),
+         outline=OUTLINES.get(name, []))
 
+# C05 at the use site: the reference recorded for an identifier is the symbol the reference lookup yields, at the identifier's own range
+_sv = U.fns[(I, '<ast::SimpleValue as Indexable>::index')]
+_sv.rebind = [(r'ctx\.symbol_map\.add_reference\(([^,()]+), ([^;]*)\)(?=;\s*match ctx\.symbol_map\.symbol)',
+               '{ let rid__: SymbolId = {g1}; let rloc__: FileRange = {g2}; '
+               'proof { assert(Some(rid__) == resolve_spec(ctx.scopes.all(), &ctx.symbol_map, name) && ident_text(identifier) == Some(name) '
+               '&& ident_range(identifier) == Some(rloc__.range) && rloc__.file == ctx.file_trace@.last()); } /*@*/\n ctx.symbol_map.add_reference(rid__, rloc__) }', 'C05',
+               'a use of a name is recorded as a reference of the symbol the lookup (innermost declaration first, global defs last) resolves it to, at the identifier\'s own range in the current file')]
 FRAME = dict(requires=[C('cwf(old(ctx))', 'C03 C05')], ensures=[C('cwf(final(ctx))', 'C03 C05'), C('restored(final(ctx), old(ctx))', 'C05'),
                                                                  C('old(ctx).indexed_files@.subset_of(final(ctx).indexed_files@)', 'C16')])
 U.fn(I, 'index_name_value', **FRAME)
